@@ -186,6 +186,20 @@ func (g *vgen) value(depth int) val {
 		if rapid.Bool().Draw(g.rt, "asarray") && n > 0 {
 			return val{typ: fmt.Sprintf("[%d]%s", n, elemT), lit: fmt.Sprintf("[%d]%s{%s}", n, elemT, strings.Join(lits, ", ")), desc: arr + "[" + strings.Join(descs, ",") + "]", nt: true}
 		}
+		switch rapid.IntRange(0, 3).Draw(g.rt, "window") {
+		case 0:
+			// a window into a larger backing array: offset and spare capacity must not show
+			pad := rapid.IntRange(1, 3).Draw(g.rt, "pad")
+			all := append(append(append([]string{}, make([]string, 0)...), repeat("1", pad)...), lits...)
+			all = append(all, repeat("1", rapid.IntRange(0, 2).Draw(g.rt, "tailpad"))...)
+			return val{typ: "[]" + elemT, lit: fmt.Sprintf("[]%s{%s}[%d:%d]", elemT, strings.Join(all, ", "), pad, pad+n), desc: arr + "[" + strings.Join(descs, ",") + "]", nt: true}
+		case 1:
+			// three-index slice of an array value
+			pad := rapid.IntRange(0, 2).Draw(g.rt, "pad3")
+			all := append(repeat("1", pad), lits...)
+			all = append(all, "1")
+			return val{typ: "[]" + elemT, lit: fmt.Sprintf("(&[%d]%s{%s})[%d:%d:%d]", len(all), elemT, strings.Join(all, ", "), pad, pad+n, pad+n), desc: arr + "[" + strings.Join(descs, ",") + "]", nt: true}
+		}
 		return val{typ: "[]" + elemT, lit: fmt.Sprintf("[]%s{%s}", elemT, strings.Join(lits, ", ")), desc: arr + "[" + strings.Join(descs, ",") + "]", nt: true}
 	case 5: // nil values
 		t := rapid.SampledFrom([]string{"[]int", "[]string", "map[string]int", "*js.Object", "interface{}", "func()", "*int", "[]interface{}"}).Draw(g.rt, "niltype")
@@ -538,6 +552,42 @@ func genScenarios(rt *rapid.T) (src string, expect []string) {
 	fmt.Fprintf(&sb, "\tout(\"F res \" + d(ev(\"gofn(%d, %s, 1.5, true, new Int32Array([1,2,3]), {k: [1, 'two']}, {x: null}, 'r1', 'r2')\")))\n", n, jsStr(s))
 	expect = append(expect, fmt.Sprintf("F args %d %s %s true 3 Array[%s,%s] Object{78=null} 2", n, keyDesc(s), numDesc(1.5), numDesc(1), strDesc("two")))
 	expect = append(expect, fmt.Sprintf("F res Array[%s,%s]", numDesc(float64(n+2)), strDesc(s+"!")))
+	// typed internalisation: every numeric kind at its boundaries through a parameter, a struct
+	// field, a map value, a slice element and a variadic parameter of an exposed function
+	type kindVals struct {
+		kind string
+		vals []string // JavaScript literals
+		f32  bool
+	}
+	table := []kindVals{
+		{"int8", []string{"-128", "-1", "0", "127"}, false},
+		{"int16", []string{"-32768", "-1", "32767", "255"}, false},
+		{"int32", []string{"-2147483648", "2147483647", "-1", "65536"}, false},
+		{"int", []string{"-2147483648", "2147483647", "0", "-65537"}, false},
+		{"uint8", []string{"0", "127", "128", "255"}, false},
+		{"uint16", []string{"0", "32767", "32768", "65535"}, false},
+		{"uint32", []string{"0", "2147483647", "2147483648", "4294967295"}, false},
+		{"uint", []string{"1", "2147483648", "4294967295", "65535"}, false},
+		{"uintptr", []string{"0", "2147483648", "4294967295"}, false},
+		{"int64", []string{"-9007199254740991", "9007199254740991", "-1", "4294967296", "-4294967297"}, false},
+		{"uint64", []string{"0", "9007199254740991", "4294967295", "4294967296"}, false},
+		{"float32", []string{"1.5", "0.1", "-0", "1e38", "16777217"}, true},
+		{"float64", []string{"0.1", "-0", "1e308", "5e-324", "-2.5"}, false},
+	}
+	for _, kv := range table {
+		k := kv.kind
+		fmt.Fprintf(&sb, "\tjs.Global.Set(\"echo_%[1]s\", func(x %[1]s, s struct{ P %[1]s }, m map[string]%[1]s, xs []%[1]s, rest ...%[1]s) []interface{} {\n\t\treturn []interface{}{x, s.P, m[\"k\"], xs[0], rest[0], x == s.P && x == m[\"k\"] && x == xs[0] && x == rest[0]}\n\t})\n", k)
+		v := kv.vals[rapid.IntRange(0, len(kv.vals)-1).Draw(rt, "tv"+k)]
+		for _, v := range append([]string{v}, kv.vals...) {
+			fmt.Fprintf(&sb, "\tout(\"T %[1]s %[2]s \" + d(ev(\"echo_%[1]s(%[2]s, {P: %[2]s}, {k: %[2]s}, [%[2]s], %[2]s)\")))\n", k, v)
+			f, _ := strconv.ParseFloat(v, 64)
+			if kv.f32 {
+				f = float64(float32(f))
+			}
+			nd := numDesc(f)
+			expect = append(expect, fmt.Sprintf("T %s %s Array[%s,%s,%s,%s,%s,bool:true]", k, v, nd, nd, nd, nd, nd))
+		}
+	}
 	// function identity
 	sb.WriteString("\tfn := func(x int) int { return x * 2 }\n\tido := js.Global.Get(\"Object\").New()\n\tido.Set(\"a\", fn)\n\tido.Set(\"b\", fn)\n\tout(\"I same \" + d(ev(\"(function(o){ return o.a === o.b && o.a(21) === 42; })\").Invoke(ido)))\n")
 	expect = append(expect, "I same bool:true")
@@ -640,4 +690,12 @@ func TestCheck(t *testing.T) {
 			ev.Sample(map[string]string{"type": p.vals[1].typ, "value": p.vals[1].lit, "expected_description": p.vals[1].desc})
 		}
 	})
+}
+
+func repeat(x string, n int) []string {
+	out := make([]string, n)
+	for i := range out {
+		out[i] = x
+	}
+	return out
 }
